@@ -577,14 +577,22 @@ def main_replay(pid, path):
 
 
 def main_setup():
+    """build everything the claimed checks need (tools/claimed.json), from files on disk only"""
     os.makedirs(BUILD, exist_ok=True)
     t0 = time.time()
-    for p in glob.glob(os.path.join(ROOT, 'tools', 'props', 'c*.py')):
-        mod = importlib.import_module('props.' + os.path.basename(p)[:-3])
+    claimed = json.load(open(os.path.join(ROOT, 'tools', 'claimed.json')))
+    mods = []
+    for pid in claimed:
+        mod = importlib.import_module('props.' + pid.lower())
+        mods.append(mod)
         if hasattr(mod, 'regenerate'):
             mod.regenerate(REPO, os.path.join(COQ, 'theories', 'Generated'))
     coq_makefile()
-    rc, out = coq_make([], timeout=3000)
+    targets = []
+    for mod in mods:
+        targets.append('theories/Properties/%s.vo' % mod.ID)
+        targets += list(getattr(mod, 'MODEL_TARGETS', ())) + list(getattr(mod, 'EXTRA_COQ_TARGETS', ()))
+    rc, out = coq_make(sorted(set(targets)), timeout=3000)
     if rc != 0:
         print(out[-5000:])
         return 1
@@ -592,7 +600,10 @@ def main_setup():
     with Lock('cargo'):
         if not os.path.exists(os.path.join(HARNESS, 'Cargo.lock')):
             shutil.copy(os.path.join(REPO, 'Cargo.lock'), os.path.join(HARNESS, 'Cargo.lock'))
-        rc, out = run(['cargo', 'build', '--offline', '--quiet', '--bins'], cwd=HARNESS, env=cargo_env(), timeout=3000)
+        cmd = ['cargo', 'build', '--offline', '--quiet']
+        for mod in mods:
+            cmd += ['--bin', mod.HARNESS]
+        rc, out = run(cmd, cwd=HARNESS, env=cargo_env(), timeout=3000)
     if rc != 0:
         print(out[-5000:])
         return 1
